@@ -1,6 +1,7 @@
 import RoutinatorModel.Model.Paths
 import RoutinatorModel.Model.Dubious
 import RoutinatorModel.Model.Collector
+import RoutinatorModel.Model.Limit
 import RoutinatorModel.Drv.Util
 import RoutinatorModel.Drv.Sha256
 /-! Driver components of group "collect": `c30` (paths). -/
@@ -157,6 +158,50 @@ def runC29 (arg : String) : String :=
       let asks := asksRrdp re hn
       s!"transport={t} asks={showBool asks} outcome={if asks then o else "-"}"
     | _, _, _, _, _ => "bad-op"
+  | _ => "bad-op"
+
+/-! ## c38 -/
+def parseOptNat (w : String) : Option (Option Nat) :=
+  if w == "none" || w == "-" then some none else w.toNat?.map some
+
+open RoutinatorModel.Limit in
+def parseEvs (ws : List String) : Option (List Ev) :=
+  ws.mapM fun w => if w == "F" then some Ev.fail else w.toNat?.map fun n => Ev.data (List.replicate n 0)
+
+open RoutinatorModel.Limit in
+def runC38 (arg : String) : String :=
+  match words arg with
+  | "read" :: l :: evs =>
+    match parseOptNat l, parseEvs evs with
+    | some l, some evs =>
+      match readAll l evs with
+      | .ok b => s!"ok {b.length}"
+      | .tooLarge b => s!"large {b.length}"
+      | .readError b => s!"readerr {b.length}"
+    | _, _ => "bad-op"
+  | ["ta", l, cl, size] =>
+    match parseOptNat l, parseOptNat cl, size.toNat? with
+    | some l, some cl, some size =>
+      match loadTa l cl [Ev.data (List.replicate size 0)] with
+      | none => "none"
+      | some b => if b.length = size then "full" else "partial"
+    | _, _, _ => "bad-op"
+  | ["object", l, size] =>
+    match parseOptNat l, size.toNat? with
+    | some l, some size =>
+      if (readAll l [Ev.data (List.replicate size 0)]).isOk then "accept" else "refuse"
+    | _, _ => "bad-op"
+  | ["config", file, cli] =>
+    match parseOptNat file, parseOptNat cli with
+    | some file, some cli => showOptNat (configLimit file cli)
+    | _, _ => "bad-op"
+  | ["rsync-arg", l] =>
+    match parseOptNat l with
+    | some l =>
+      match rsyncMaxSizeArg l with
+      | some n => s!"--max-size={n}"
+      | none => "-"
+    | none => "bad-op"
   | _ => "bad-op"
 
 end RoutinatorModel.Drv
